@@ -134,23 +134,6 @@ def gen_tag(dist, deg, pk, r, uk, x0, x1, x2, y0, y1, y2):
         return f'C15/raises-on-second-call/{type(ex).__name__}/{dname}'
     if out3 != out:
         return f'C15/not-deterministic/same-model-asked-twice/{dname}'
-    # a model created with ANOTHER seed draws from that seed's own stream (here: y0..y2), whatever was drawn before
-    other = {0: 7, 7: 20, 20: 0}.get(seed, 0)
-    SEEDED[other] = {'u': u, 'u2': u2, 'x': [y0, y1, y2]}
-    try:
-        out4 = DelayModel(prob, dname, DEG[deg], seed=other).generate_delay(r, 3)
-    except Exception as ex:
-        return f'C15/raises-on-second-call/{type(ex).__name__}/{dname}'
-    own = [r]
-    if dname == 'normal':
-        own += [y0, y1, y2]
-    elif dname == 'poisson':
-        own += [(y if y >= 0 else 0) for y in (y0, y1, y2)]
-    else:
-        hi = int((r + DEG[deg].value * r) // 1)
-        own += [(r if y < r else (hi if y > hi else y)) for y in (y0, y1, y2)]
-    if not any(out4 == v for v in own):
-        return f'C15/not-deterministic/value-drawn-under-another-seed-returned/{dname}'
     if out < r:
         return f'C15/shortened/{dname}'
     if (deg == 3 or pk == 0 or r == 0) and out != r:
@@ -158,6 +141,39 @@ def gen_tag(dist, deg, pk, r, uk, x0, x1, x2, y0, y1, y2):
     if out > r:
         wit.reach('delay-added')
     return None
+
+
+def seed2_ok_tag(r, x0, x1, x2, y0, y1, y2):
+    """a model created with ANOTHER seed draws from that seed's own stream (y0..y2), whatever was drawn before under the
+    first seed (stream x0..x2) in the same interpreter; probability 1, so both models draw"""
+    wit.begin()
+    r = wit.concretize(r, 0, RMAX)
+    dname, deg, seed = DIST[PIN.get('dist', 0)], DEG[PIN.get('deg', 1)], PIN.get('seed', 20)
+    other = {0: 7, 7: 20, 20: 0}.get(seed, 0)
+    SEEDED.clear()
+    SEEDED[seed] = {'u': 0.0, 'u2': 0.75, 'x': [x0, x1, x2]}
+    SEEDED[other] = {'u': 0.0, 'u2': 0.75, 'x': [y0, y1, y2]}
+    try:
+        out = DelayModel(1.0, dname, deg, seed=seed).generate_delay(r, 3)
+        out4 = DelayModel(1.0, dname, deg, seed=other).generate_delay(r, 3)
+    except Exception as ex:
+        return f'C15/raises/{type(ex).__name__}/{dname}'
+    if out > r:
+        wit.reach('delay-added')
+    own = [r, y0, y1, y2] + ([0] if dname == 'poisson' else [])        # superset of what the second stream can yield
+    if not any(out4 == v for v in own):
+        return f'C15/not-deterministic/value-drawn-under-another-seed-returned/{dname}'
+    return None
+
+
+def seed2_ok(r: int, x0: int, x1: int, x2: int, y0: int, y1: int, y2: int) -> bool:
+    """
+    pre: 0 <= r <= 6
+    post: _
+    """
+    t = seed2_ok_tag(r, x0, x1, x2, y0, y1, y2)
+    wit.note(t, r=r, x0=x0, x1=x1, x2=x2, y0=y0, y1=y1, y2=y2)
+    return wit.verdict(t)
 
 
 def gen_ok_tag(pk, r, uk, x0, x1, x2, y0, y1, y2):
@@ -244,9 +260,12 @@ def shards(tier, prop):
     if prop == 'C10':
         out = [{'fn': 'gen_ok', 'pin': {'dist': k, 'deg': g, 'seed': sd, 'only': 'not-deterministic'}, 'cond_timeout': T}
                for (k, g, sd) in ((0, 1, 20), (1, 2, 0), (2, 0, 7), (0, 2, 0), (1, 0, 20), (2, 1, 0))]
+        out += [{'fn': 'seed2_ok', 'pin': {'dist': k, 'deg': g, 'seed': sd}, 'cond_timeout': T} for (k, g, sd) in ((0, 1, 20), (1, 2, 0), (0, 0, 7))]
         return out + [{'fn': 'gen_ok', 'pin': {'dist': 0, 'deg': 1}, 'cond_timeout': 30, 'twin': True}]
     out = [{'fn': 'gen_ok', 'pin': {'dist': k, 'deg': g, 'seed': (20, 0, 7)[(k + g) % 3]}, 'cond_timeout': T} for k in range(3) for g in range(4)]
     out += [{'fn': 'gen_ok', 'pin': {'dist': k, 'deg': 1, 'seed': 0}, 'cond_timeout': T} for k in range(3)]
+    out += [{'fn': 'seed2_ok', 'pin': {'dist': k, 'deg': g, 'seed': sd}, 'cond_timeout': T} for (k, g, sd) in ((0, 1, 20), (1, 2, 0), (0, 2, 0)) + (((1, 1, 7),) if tier != 'quick' else ())]
+    out.append({'fn': 'seed2_ok', 'pin': {'dist': 0, 'deg': 1}, 'cond_timeout': 30, 'twin': True})
     out.append({'fn': 'flag_ok', 'cond_timeout': T})
     out.append({'fn': 'gen_ok', 'pin': {'dist': 0, 'deg': 1}, 'cond_timeout': 30, 'twin': True})
     out.append({'fn': 'flag_ok', 'cond_timeout': 30, 'twin': True})
